@@ -106,6 +106,22 @@ def r3(ctx):
                      "segment payload is not bounded by both the MSS and the peer's remaining window (atoms: " + ", ".join(sorted(a for a in at if 'min' in a or 'mss' in a or 'snd_wnd' in a)) + ")")
         if not cps:
             ctx.bad(R, "segment_one:payload-bound", b.span, "payload construction not found")
+        # the window operand of the min chain is the *remaining* window: snd_wnd minus what is already in flight (snd_nxt - snd_una)
+        def min_leaves(op, depth=0):
+            o = origin(b, op)
+            if o["k"] == "call" and re.search(r"::min$", o["t"]["f"]) and depth < 6:
+                return [x for a in o["t"]["args"] for x in min_leaves(a, depth + 1)]
+            return [op]
+        wl = []
+        for bb, t in b.calls(re.compile(r"::min$")):
+            for lf in min_leaves({"c": t["d"]} if not t["d"].get("p") else t["args"][0]):
+                at = Slicer(ctx.w).atoms(b, lf)
+                if "field:" + T + "snd_wnd" in at:
+                    wl.append((at, t["s"]))
+        okw = bool(wl) and all("field:" + T + "snd_nxt" in at and "field:" + T + "snd_una" in at and
+                               any(re.search(r"call:.*(saturating_sub|checked_sub)$|binop:Sub", a) for a in at) for at, _ in wl)
+        ctx.inst(R, "segment_one:window-minus-in-flight", okw, wl[0][1] if wl else b.span, "segments are cut to snd_wnd - (snd_nxt - snd_una)" if okw else
+                 "a segment is cut to the peer's whole window, not to what remains of it after the bytes already in flight: more than the advertised window can be outstanding")
         # mss argument = local ip
         for bb, t in b.calls("turmoil_net::kernel::tcp::mss_for"):
             at = Slicer(ctx.w).atoms(b, t["args"][1])
